@@ -497,8 +497,32 @@ impl Exec for IovecExec {
                         self.iovs[i].as_mut().unwrap().backfill_or_panic(tok, &bytes);
                         self.describe(&mut so, touched);
                         return so;
+                    } else if holes > 0 || {
+                        // ... or a stale token equal BY VALUE to a placeholder of this iovec that is pending
+                        let tok_repr = format!("{:?}", tok);
+                        self.brefs.iter().enumerate().any(|(k, t)| {
+                            k != bi
+                                && self.bref_owner[k] == i
+                                && t.as_ref().map(|t| format!("{:?}", t)).as_deref() == Some(tok_repr.as_str())
+                                && self.shadows[i].cells.iter().any(|c| *c == Cell::Hole(k))
+                        }) && tok.len() != bytes.len()
+                    } {
+                        // own, still-pending placeholder but a source of the wrong size: a documented
+                        // panic, which must leave the iovec exactly as it was (the placeholder stays
+                        // pending and invisible).  Catch it here and keep the case going.
+                        so.tags.push("backfill_wrong_size".into());
+                        let tok_len = tok.len();
+                        let v = self.iovs[i].as_mut().unwrap();
+                        let r = std::panic::catch_unwind(std::panic::AssertUnwindSafe(|| v.backfill_or_panic(tok, &bytes)));
+                        if r.is_ok() {
+                            so.violations.push(format!("C03 v{} backfill_or_panic accepted a {}-byte source for a {}-byte placeholder", i, bytes.len(), tok_len));
+                            self.shadows[i].unknown = true;
+                        }
+                        so.obs.push("R panicked".into());
+                        self.describe(&mut so, touched);
+                        return so;
                     } else {
-                        // wrong length, or cleared since: expected to panic
+                        // stale token (cleared since): expected to panic
                         so.tags.push("backfill_expected_panic".into());
                     }
                 }
@@ -964,16 +988,19 @@ impl Family for IovecFamily {
                     g.n_bref += 1;
                 }
             } else if roll < 28 + w_reg + 18 {
-                let k = match g.rng.below(6) {
+                let k = match g.rng.below(7) {
                     0 => 0,
                     1 => 1,
                     2 => g.rng.range(1, 5),
                     3 => g.rng.range(1, 70),
                     4 => g.rng.range(60, 300),
-                    _ => 100000,
+                    5 => 100000,
+                    // the "drain everything" idiom, after arbitrary history
+                    _ => *g.rng.pick(&[u64::MAX, u64::MAX - 1, u64::MAX - 70, 1u64 << 63, (1u64 << 32) + 5]),
                 };
                 let kind = *g.rng.pick(&["consume", "advance", "advance", "read"]);
                 let k = if kind == "read" { k.min(5000) } else { k };
+                let k = if kind == "advance" || kind == "consume" { k } else { k.min(1 << 40) };
                 g.ops.push(format!("{} v{} {}", kind, v, k));
             } else if roll < 28 + w_reg + 18 + w_clone {
                 match g.rng.below(6) {
